@@ -216,6 +216,11 @@ pub fn solve<F: Function>(
         cur[*i] = f;
     }
 
+    // Without free parameters, there is nothing to solve for
+    if cur.is_empty() {
+        return Ok(HashMap::new());
+    }
+
     // Working arrays for the current Jacobian and result
     let mut jacobian = nalgebra::DMatrix::repeat(tapes.len(), cur.len(), 0f32);
     let mut result = nalgebra::DVector::repeat(tapes.len(), 0f32);
